@@ -672,7 +672,7 @@ Proof.
   destruct (cs s t) eqn:E; auto; cbn [step]; rewrite E.
   - destruct (file s); eauto.
   - intros H. apply Z.ltb_lt in H. rewrite H. eauto.
-  - destruct (file s) as [i|]; [|eauto]. destruct (content s i); [destruct (S ec <? retries c)%nat | destruct (is_stale c (now s) created updated) |]; eauto.
+  - destruct (file s) as [i|]; [|eauto]. destruct (content s i); [match goal with |- context [if ?b then _ else _] => destruct b end | destruct (is_stale c (now s) created updated) |]; eauto.
   - eauto.
 Qed.
 
@@ -782,7 +782,7 @@ Proof.
               (forall p cr due, hb (set_cs s t x) i <> HSleep p cr due) /\ (forall p cr j fcr sn, hb (set_cs s t x) i <> HTrunc p cr j fcr sn)).
     { intros x Hx. cbn. split; [reflexivity|]. split; [assumption|]. split; [|auto].
       intros t' e. destruct (Nat.eq_dec t' t) as [->|Hne]; [rewrite upd_eq; apply Hx | rewrite upd_neq by assumption; apply Hnc]. }
-    rewrite Hf in Hs. destruct (content s i); [destruct (S ec <? retries c)%nat | destruct (is_stale c (now s) created updated) |];
+    rewrite Hf in Hs. destruct (content s i); [match type of Hs with context [if ?b then _ else _] => destruct b end | destruct (is_stale c (now s) created updated) |];
       injection Hs as <-; apply Hgen; intros; discriminate.
   - destruct (cs s t) eqn:Ecs; try discriminate. injection Hs as <-. cbn in Hf'. discriminate.
   - destruct (cs s t) eqn:Ecs; try discriminate. destruct (until <=? now s); [|discriminate]. injection Hs as <-.
@@ -815,6 +815,24 @@ Proof.
     + intros p' cr j fcr sn H. destruct (kill_hb_cases p (hb s) i) as [E|[E _]]; rewrite E in H; [exact (Hnt _ _ _ _ _ H) | discriminate].
 Qed.
 
+(** ... nor changes its modification time *)
+Lemma abandoned_mtime_step s l s' i : HBInv c s -> abandoned s i -> step c s l = Some s' ->
+  mtime s' i = mtime s i.
+Proof.
+  intros HB (Hf & Hnc & Hns & Hnt) Hs.
+  pose proof (HB_file c s HB i Hf) as Hlt. pose proof (HB_trunc c s HB) as Htr.
+  inv_step Hs; cbn [mtime set_cs]; try reflexivity; try congruence.
+  - (* write meta *)
+    assert (i <> i0) by (intros ->; exact (Hnc _ _ Ecs)). rewrite upd_neq by assumption. reflexivity.
+  - (* heartbeat truncate *)
+    assert (E1 : i1 = i) by congruence. subst i1.
+    destruct (wake_target c Hchk s i0 p created due i created0 updated HB Ehb Ect Eb0) as [E _].
+    subst i0. destruct (Hns _ _ _ Ehb).
+  - (* heartbeat write *)
+    destruct (Htr _ _ _ _ _ _ Ehb) as [-> ->].
+    assert (i <> i0) by (intros ->; exact (Hnt _ _ _ _ _ Ehb)). rewrite upd_neq by assumption. reflexivity.
+Qed.
+
 (** once the name points elsewhere (or nowhere) it never points to inode [i] again *)
 Lemma gone_step s l s' i : (i < nexti s)%nat -> file s <> Some i -> step c s l = Some s' ->
   (i < nexti s')%nat /\ file s' <> Some i.
@@ -825,10 +843,10 @@ Proof.
 Qed.
 
 Lemma abandoned_run ls : forall s s' i, HBInv c s -> abandoned s i -> run c s ls = Some s' -> file s' = Some i ->
-  content s' i = content s i /\ abandoned s' i /\ HBInv c s' /\ now s <= now s'.
+  content s' i = content s i /\ abandoned s' i /\ HBInv c s' /\ now s <= now s' /\ mtime s' i = mtime s i.
 Proof.
   induction ls as [|l ls IH]; intros s s' i HB Ha; cbn [run].
-  - intros H _; injection H; intros <-. split; [reflexivity|]. split; [assumption|]. split; [assumption | lia].
+  - intros H _; injection H; intros <-. split; [reflexivity|]. split; [assumption|]. split; [assumption|]. split; [lia | reflexivity].
   - destruct (step c s l) as [s1|] eqn:E; [|discriminate]. intros Hr Hf'.
     pose proof (HBInv_step c Hchk Hcfg s l s1 HB E) as HB1.
     assert (Hnow : now s <= now s1).
@@ -837,7 +855,8 @@ Proof.
     { destruct (file s1) as [j|]; [destruct (Nat.eq_dec j i); [left; congruence | right; congruence] | right; discriminate]. }
     destruct Hdec as [Hf1|Hf1].
     + destruct (abandoned_step s l s1 i HB Ha E Hf1) as [Hc1 Ha1].
-      destruct (IH s1 s' i HB1 Ha1 Hr Hf') as (H1 & H2 & H3 & H4). split; [congruence|]. split; [assumption|]. split; [assumption | lia].
+      pose proof (abandoned_mtime_step s l s1 i HB Ha E) as Hm1.
+      destruct (IH s1 s' i HB1 Ha1 Hr Hf') as (H1 & H2 & H3 & H4 & H5). split; [congruence|]. split; [assumption|]. split; [assumption|]. split; [lia | congruence].
     + exfalso. destruct Ha as (Hf & _). pose proof (HB_file c s HB i Hf) as Hlt.
       assert (Hg : (i < nexti s1)%nat /\ file s1 <> Some i).
       { split; [|assumption]. clear - E Hlt. inv_step E; cbn; lia. }
@@ -888,7 +907,7 @@ Proof.
   assert (Hcs : content s i = content s0 i /\ now s = now s0).
   { cbn [step] in Hk. injection Hk as <-. cbn. auto. }
   destruct Hcs as [Hcs Hns].
-  destruct (abandoned_run ls s s' i HBs Ha Hr Hf') as (Hc' & _ & _ & Hnow).
+  destruct (abandoned_run ls s s' i HBs Ha Hr Hf') as (Hc' & _ & _ & Hnow & _).
   assert (Hcont : content s' i = FMeta cr (Some u)) by congruence.
   split; [assumption|]. apply (stale_obtainable s' i cr (Some u) w ec); auto.
   pose proof (HB_time c s0 HB i cr u Hc) as Hu. unfold is_stale. apply Z.ltb_lt. lia.
@@ -901,19 +920,22 @@ Theorem empty_recovers s0 t i s ls s' :
   HBInv c s0 -> owner s0 t i -> file s0 = Some i -> content s0 i = FEmpty ->
   step c s0 (LKill (cproc s0 t)) = Some s ->
   run c s ls = Some s' -> file s' = Some i ->
-  content s' i = FEmpty /\
+  content s' i = FEmpty /\ mtime s' i = mtime s0 i /\
   forall w ec, cs s' w = CExists ec ->
     exists s1, step c s' (LOpenRead w) = Some s1 /\
-      cs s1 w = if (S ec <? retries c)%nat then CSleep (S ec) (now s' + esleep c) else CStale (S ec).
+      cs s1 w = if (S ec <? retries c)%nat || (guard c && negb (factor c * interval c <? now s' - mtime s0 i))
+                then CSleep (S ec) (now s' + esleep c) else CStale (S ec).
 Proof.
   intros HB Hh Hf Hc Hk Hr Hf'.
   pose proof (kill_abandons s0 t i s HB Hh Hf Hk) as Ha.
   pose proof (HBInv_step c Hchk Hcfg s0 _ s HB Hk) as HBs.
-  assert (Hcs : content s i = content s0 i) by (cbn [step] in Hk; injection Hk as <-; reflexivity).
-  destruct (abandoned_run ls s s' i HBs Ha Hr Hf') as (Hc' & _ & _ & _).
+  assert (Hcs : content s i = content s0 i /\ mtime s i = mtime s0 i) by (cbn [step] in Hk; injection Hk as <-; split; reflexivity).
+  destruct Hcs as [Hcs Hms].
+  destruct (abandoned_run ls s s' i HBs Ha Hr Hf') as (Hc' & _ & _ & _ & Hm').
   assert (Hcont : content s' i = FEmpty) by congruence.
-  split; [assumption|]. intros w ec Hw. cbn [step]. rewrite Hw, Hf', Hcont.
-  destruct (S ec <? retries c)%nat; eexists; (split; [reflexivity|]); cbn; rewrite upd_eq; reflexivity.
+  assert (Hmt : mtime s' i = mtime s0 i) by congruence.
+  split; [assumption|]. split; [assumption|]. intros w ec Hw. cbn [step]. rewrite Hw, Hf', Hcont, Hmt.
+  match goal with |- context [if ?b then _ else _] => destruct b end; eexists; (split; [reflexivity|]); cbn; rewrite upd_eq; reflexivity.
 Qed.
 End PartD.
 
